@@ -292,3 +292,9 @@ package option
 //@   ensures sort.flags {C18}: (forall i int :: 0 <= i && i < len(list) ==> list[i].IsRequired) ==> (forall i int :: 0 <= i && i < len(list) ==> final(list)[i].IsRequired)
 //@   ensures sort.noflags {C18}: (forall i int :: 0 <= i && i < len(list) ==> !list[i].IsRequired) ==> (forall i int :: 0 <= i && i < len(list) ==> !final(list)[i].IsRequired)
 //@   ensures sort.perm {C18}: (forall i int :: 0 <= i && i < len(list) ==> inseq(list[i], final(list))) && (forall i int :: 0 <= i && i < len(list) ==> inseq(final(list)[i], list))
+
+// Value: reads the receiver of the option's kind (safety: the representation invariant makes that pointer non-nil).
+//@ func (*Option).Value
+//@   props C06 C19
+//@   requires value.rep: RepOK(opt)
+//@   modifies
